@@ -98,6 +98,7 @@ def install(ag, recorder):
         return dict(op=op, n=n, nouts=nouts, ngetter=-1, events=[],
                     ngetter_params=_nparams(get_state), nsetter_params=_nparams(set_state),
                     nbody=_nparams(body), ntest=_nparams(test), norelse=_nparams(orelse),
+                    na=0, nb=0, nc=0,
                     has_iterate_names=1 if (isinstance(opts, dict) and 'iterate_names' in opts) else 0,
                     opts_ok=1, opts={k: v for k, v in (opts or {}).items()} if isinstance(opts, dict) else {}, key=0)
 
@@ -140,16 +141,30 @@ def install(ag, recorder):
             R.calls.append(rec)
         return saved['for_stmt'](iter_, extra_test, body, get_state, set_state, symbol_names, opts)
 
+    def lazy(op, a, b, c=None):
+        """The operands of the lazy operators are zero-argument thunks (the operator decides what is evaluated)."""
+        rec = base(op, 0, 0, None, None, None, None, None, None)
+        rec.update(ngetter=0, ngetter_params=0, nsetter_params=1, nbody=0, ntest=0, norelse=0,
+                   na=_nparams(a) if callable(a) else -2, nb=_nparams(b) if callable(b) else -2,
+                   nc=0 if c is None else (_nparams(c) if callable(c) else -2))
+        R.calls.append(rec)
+
     def if_exp(cond, if_true, if_false, expr_repr):
         R.count('if_exp')
+        if R.probe:
+            lazy('if_exp', if_true, if_false)
         return saved['if_exp'](cond, if_true, if_false, expr_repr)
 
     def and_(a, b):
         R.count('and_')
+        if R.probe:
+            lazy('and_', a, b)
         return saved['and_'](a, b)
 
     def or_(a, b):
         R.count('or_')
+        if R.probe:
+            lazy('or_', a, b)
         return saved['or_'](a, b)
 
     def not_(a):
